@@ -112,42 +112,74 @@ func isASCII(s string) bool {
 	return true
 }
 
-// classify names the class of an in-contract edit, computed from the edit and the
-// text it is applied to (used in the mirror-mismatch signature):
-//
-//	non-ascii-column  a non-ASCII character stands in front of an addressed column
-//	past-eof          a line number is past the last line
-//	past-eol          a character is past the end of its line
-//	in-range          none of the above
-//	full              full-text replacement
-func classify(text string, ed edit) string {
+// editFlags describes an edit relative to the text it is applied to.
+type editFlags struct{ full, out, eof, eol, nonASCII bool }
+
+func flagsOf(text string, ed edit) (f editFlags) {
 	if ed.Full {
-		return "full"
+		f.full = true
+		return
 	}
 	if !inContract(text, ed) {
-		return "out-of-contract"
+		f.out = true
+		return
 	}
 	lines := strings.Split(text, "\n")
-	cls := "in-range"
-	rank := map[string]int{"in-range": 0, "past-eol": 1, "past-eof": 2, "non-ascii-column": 3}
-	up := func(c string) {
-		if rank[c] > rank[cls] {
-			cls = c
-		}
-	}
 	for _, p := range []pos{ed.S, ed.E} {
 		if p.L >= len(lines) {
-			up("past-eof")
+			f.eof = true
 			continue
 		}
 		// the part of the line in front of the (clamped) position
 		o, _ := locate(lines[p.L], pos{0, p.C})
 		if !isASCII(lines[p.L][:o]) {
-			up("non-ascii-column")
+			f.nonASCII = true
 		}
 		if p.C > utf16Len(lines[p.L]) {
-			up("past-eol")
+			f.eol = true
 		}
 	}
-	return cls
+	return
+}
+
+// mirrorClass names the class of an edit for the mirror-mismatch signature:
+//
+//	full              full-text replacement
+//	out-of-contract   negative, inverted or inside a surrogate pair (never asserted)
+//	non-ascii-column  a non-ASCII character stands in front of an addressed column
+//	past-eof          a line number is past the last line
+//	past-eol          a character is past the end of its line
+//	in-range          none of the above
+func (f editFlags) mirrorClass() string {
+	switch {
+	case f.full:
+		return "full"
+	case f.out:
+		return "out-of-contract"
+	case f.nonASCII:
+		return "non-ascii-column"
+	case f.eof:
+		return "past-eof"
+	case f.eol:
+		return "past-eol"
+	}
+	return "in-range"
+}
+
+// panicClass names the class of an edit for the panic signature (what about the
+// message is unusual, most unusual first).
+func (f editFlags) panicClass() string {
+	switch {
+	case f.full:
+		return "full"
+	case f.out:
+		return "out-of-contract"
+	case f.eof:
+		return "past-eof"
+	case f.eol:
+		return "past-eol"
+	case f.nonASCII:
+		return "non-ascii-column"
+	}
+	return "in-range"
 }
